@@ -1,7 +1,49 @@
-"""Differential self-test of the translator: concrete scenario functions are executed by the engine and
-natively; digests must agree (filled in progressively)."""
+"""Differential self-test of the translator: concrete scenario functions built from the repository's own test inputs
+are executed by the engine (symbolic executor on go/ssa) and natively (go test with the same overlay); the digests
+they log must agree line by line."""
+import importlib.util, importlib.machinery, json, os, re, subprocess, sys
+
+SCENARIOS = [
+    {"name": "selftest-commands", "pkg": "imap/command", "pkgname": "command", "entry": "VerifSelftestCommands",
+     "files": ["zz_verif_selftest.go", "zz_verif_reader.go"], "params": {"quick": [{}]}},
+    {"name": "selftest-messages", "pkg": "rfc822", "pkgname": "rfc822", "entry": "VerifSelftestMessages",
+     "files": ["zz_verif_selftest.go"], "params": {"quick": [{}]}},
+]
 
 
 def run(root, repo, env):
-    print("selftest: engine built")
-    return 0
+    loader = importlib.machinery.SourceFileLoader("verifcheck", os.path.join(root, "check"))
+    spec = importlib.util.spec_from_loader("verifcheck", loader)
+    chk = importlib.util.module_from_spec(spec)
+    loader.exec_module(chk)
+    binp = chk.ensure_engine()
+    work = os.path.join(root, ".work", "selftest-%d" % os.getpid())
+    os.makedirs(work, exist_ok=True)
+    rc = 0
+    pat = re.compile(r'vsymLog: digest (".*")\s*$')
+    for h in SCENARIOS:
+        sp = {"id": "selftest", "repo": repo, "pkg": chk.MOD + "/" + h["pkg"], "entry": h["entry"], "overlay": chk.overlay_for(h, work),
+              "param_sets": [{}], "out": os.path.join(work, h["name"] + ".out.json"), "workers": 1}
+        spp = os.path.join(work, h["name"] + ".spec.json")
+        json.dump(sp, open(spp, "w"))
+        r = subprocess.run([binp, "-spec", spp], env=dict(env, VERIF_LOG="1"), stdout=subprocess.PIPE, stderr=subprocess.PIPE, text=True)
+        eng = [m.group(1) for m in (pat.search(l) for l in r.stderr.splitlines()) if m]
+        v = {"kind": "assert", "label": "selftest", "model": {}}
+        d = chk.make_replay("selftest", h, sp, {"params": {}}, v, 0)
+        os.environ["VERIF_LOG"] = "1"
+        chk.GOENV["VERIF_LOG"] = "1"
+        chk.run_replay(d)
+        chk.GOENV.pop("VERIF_LOG", None)
+        nat = [m.group(1) for m in (pat.search(l) for l in open(os.path.join(d, "replay.log")).read().splitlines()) if m]
+        same = eng == nat and len(eng) > 0
+        print("selftest %s: engine %d digests, native %d digests: %s" % (h["name"], len(eng), len(nat), "agree" if same else "DIFFER"))
+        if not same:
+            rc = 2
+            for i in range(max(len(eng), len(nat))):
+                a = eng[i] if i < len(eng) else None
+                b = nat[i] if i < len(nat) else None
+                if a != b:
+                    print("  #%d engine=%s\n      native=%s" % (i, a, b))
+    import shutil
+    shutil.rmtree(work, ignore_errors=True)
+    return rc
